@@ -200,7 +200,9 @@ def check(ctx: Ctx) -> str:
     tm = repo.func("environment:TemplateModule.__init__")
     ctx.check("self.__dict__.update(context.get_exported())" in ast.unparse(tm.node), "TemplateModule:exports", "environment:TemplateModule.__init__", "module attributes", "a template module must expose exactly context.get_exported()", tm.loc())
     ge = repo.func("runtime:Context.get_exported")
-    ctx.check(ast.unparse(astq.returns(ge.node)[0].value) == "{k: self.vars[k] for k in self.exported_vars}", "get_exported", "runtime:Context.get_exported", "exported dict", "get_exported must return the vars named in exported_vars", ge.loc())
+    gev = astq.returns(ge.node)[0].value
+    ge_ok = isinstance(gev, ast.DictComp) and len(gev.generators) == 1 and not gev.generators[0].ifs and ast.unparse(gev.generators[0].iter) == "self.exported_vars" and ast.unparse(gev.key) == ast.unparse(gev.generators[0].target) and ast.unparse(gev.value) == f"self.vars[{ast.unparse(gev.generators[0].target)}]"
+    ctx.check(ge_ok, "get_exported", "runtime:Context.get_exported", "exported dict", "get_exported must return the vars named in exported_vars", ge.loc())
 
     ctx.rule("R4", "get_or_select_template dispatches str/Undefined -> get_template, Template -> itself, anything else -> select_template; select_template returns the first name that loads and skips only TemplateNotFound / UndefinedError")
     gs = repo.func("environment:Environment.get_or_select_template")
